@@ -9,5 +9,7 @@ git -C $wt apply $so/patch.diff || { echo "PATCH DOES NOT APPLY"; exit 2; }
 echo "== demo with patch"; (cd $so && timeout 600 bash run.sh $wt >/tmp/seedout/$id-$k/patched.log 2>&1; echo "rc=$?")
 echo "== unit tests with patch"; (cmake --build $wt/_b >/tmp/seedout/$id-$k/build.log 2>&1 && ctest --test-dir $wt/_b -j8 --timeout 900 2>&1 | grep -E "tests passed|tests failed" )
 echo "== our check on patched tree"
+cp /verif/evidence/$id.json /tmp/seedout/$id-$k/evidence.bak 2>/dev/null
 (cd /verif && VERIF_REPO=$wt timeout 3000 bin/vcheck $id --tier $tier > /tmp/seedout/$id-$k/vcheck.log 2>&1; echo "vcheck rc=$?"; grep -E "^VIOLATION|^KNOWN|done:| -> " /tmp/seedout/$id-$k/vcheck.log | head -8)
+cp /tmp/seedout/$id-$k/evidence.bak /verif/evidence/$id.json 2>/dev/null
 git -C $wt checkout -q -- .
